@@ -122,6 +122,21 @@ pub fn generate(repo: &PathBuf) -> Result<String, String> {
     if !spc.methods.iter().any(|m| m == "sort_by") || !spc.methods.iter().any(|m| m == "take") {
         return Err("sort_peers_by_key: expected sort_by + take".into());
     }
+    // Network::get_all_close_peers_in_range_or_close_group: the client's own id is stripped BEFORE sorting/truncating,
+    // and the expanded close group is CLOSE_GROUP_SIZE + CLOSE_GROUP_SIZE / 2
+    let cg = impl_fn(&netlib, "Network", None, "get_all_close_peers_in_range_or_close_group")?;
+    let cgt = cg.block.to_token_stream().to_string().replace(' ', "");
+    let pos_retain = cgt.find(".retain(").ok_or("get_all_close_peers_in_range_or_close_group: no retain of self")?;
+    let pos_sort = cgt.find("sort_peers_by_address(").ok_or("get_all_close_peers_in_range_or_close_group: no sort_peers_by_address")?;
+    let strip_before_sort = pos_retain < pos_sort;
+    if !cgt.contains("ifclient{") {
+        return Err("get_all_close_peers_in_range_or_close_group: expected `if client { … retain … }`".into());
+    }
+    let expanded = if cgt.contains("CLOSE_GROUP_SIZE+CLOSE_GROUP_SIZE/2") {
+        close_group + close_group / 2
+    } else {
+        return Err("get_all_close_peers_in_range_or_close_group: unexpected expanded close group expression".into());
+    };
     let cmd = parse_file(&repo.join("ant-networking/src/cmd.rs"))?;
     let gp = free_fn(&cmd, "get_peers_in_range")?;
     let mut cm = Cmps { ops: vec![] };
@@ -161,6 +176,8 @@ pub fn generate(repo: &PathBuf) -> Result<String, String> {
     }
     s.push_str(&format!("/-- `get_peers_in_range` keeps `distance <= range` (true) or `<` (false) -/\ndef inRangeLe : Bool := {}\n", lean_bool(in_range_le)));
     s.push_str(&format!("/-- `calculate_get_closest_peers` range branch keeps `<=` (true) or `<` (false) -/\ndef closestRangeLe : Bool := {}\n", lean_bool(closest_le)));
+    s.push_str(&format!("/-- `get_all_close_peers_in_range_or_close_group`: the client's own id is removed before the sort/`NotEnoughPeers` check/truncation -/\ndef clientStripsSelfBeforeSort : Bool := {}\n", lean_bool(strip_before_sort)));
+    s.push_str(&format!("/-- `CLOSE_GROUP_SIZE + CLOSE_GROUP_SIZE / 2` -/\ndef expandedCloseGroup : Nat := {expanded}\n"));
     s.push_str("end SafeNet.Gen.Distance\n");
     Ok(s)
 }
